@@ -45,7 +45,7 @@ def outcome(i):
 def one_case(rng, res, family):
     root = scen.new_root()
     try:
-        hooks, inspect_timeout, params = [], 10, None
+        hooks, inspect_timeout, params = [], 60, None
         if family == "c02":
             ch, desc = c02.gen_case(rng, root, False)
         elif family == "c05":
